@@ -115,7 +115,7 @@ type c26Outcome struct {
 	panicked any
 }
 
-func c26Run(stream []byte, chunks []int) (out c26Outcome) {
+func c26Run(stream []byte, chunks []int, readSizes ...int) (out c26Outcome) {
 	defer func() {
 		if r := recover(); r != nil {
 			out.panicked = r
@@ -128,10 +128,22 @@ func c26Run(stream []byte, chunks []int) (out c26Outcome) {
 		out.restErr = fmt.Errorf("ReadProxyProtocol returned a nil conn")
 		return out
 	}
-	// read the rest through the wrapped conn in odd-sized reads
+	// read the rest through the wrapped conn with the consumer's buffer sizes (a Kafka reader
+	// asks for 4 bytes, then for the whole frame: anything from 1 byte to many KiB per call)
+	if len(readSizes) == 0 {
+		readSizes = []int{1500}
+	}
 	var rest []byte
-	buf := make([]byte, 1500)
-	for {
+	big := make([]byte, 1<<16)
+	for k := 0; ; k++ {
+		sz := readSizes[k%len(readSizes)]
+		if sz < 1 {
+			sz = 1
+		}
+		if sz > len(big) {
+			sz = len(big)
+		}
+		buf := big[:sz]
 		n, rerr := wrapped.Read(buf)
 		rest = append(rest, buf[:n]...)
 		if rerr == io.EOF {
@@ -518,6 +530,21 @@ func c26GenChunks(t *rapid.T) ([]int, string) {
 	}
 }
 
+// c26GenReadSizes draws the buffer sizes the consumer passes to Read, call by call.
+func c26GenReadSizes(t *rapid.T) ([]int, string) {
+	sizes := []int{1, 3, 4, 512, 1500, 4095, 4096, 4097, 8192, 65536}
+	switch rapid.IntRange(0, 3).Draw(t, "read-kind") {
+	case 0:
+		return []int{rapid.SampledFrom(sizes).Draw(t, "read-size")}, "fixed"
+	case 1: // the Kafka reader: 4-byte length, then the frame in one call
+		return []int{4, rapid.SampledFrom([]int{4096, 8192, 65536, 200, 5000}).Draw(t, "frame-read")}, "length-then-frame"
+	case 2:
+		return []int{rapid.SampledFrom([]int{4096, 8192, 65536}).Draw(t, "read-size")}, "large"
+	default:
+		return rapid.SliceOfN(rapid.SampledFrom(sizes), 2, 6).Draw(t, "read-sizes"), "mixed"
+	}
+}
+
 func c26GenTLVs(t *rapid.T) []byte {
 	if rapid.IntRange(0, 2).Draw(t, "tlv?") == 0 {
 		return nil
@@ -730,6 +757,7 @@ func TestVF_C26_Stream(t *testing.T) {
 			stream = head
 		}
 		chunks, chunkClass := c26GenChunks(t)
+		readSizes, readClass := c26GenReadSizes(t)
 
 		// The reference parser must agree with the construction (guards the harness itself)
 		ref := c26RefParse(stream)
@@ -755,7 +783,8 @@ func TestVF_C26_Stream(t *testing.T) {
 		st.Class(cl)
 		st.Class("chunks:" + chunkClass)
 
-		out := c26Run(stream, chunks)
+		st.Class("reads:" + readClass)
+		out := c26Run(stream, chunks, readSizes...)
 		if out.err != nil {
 			st.Class("outcome:error")
 		} else if out.info == nil {
@@ -770,7 +799,7 @@ func TestVF_C26_Stream(t *testing.T) {
 			st.Class("note:unix-reported-as-ip")
 		}
 		if msg := c26Judge(stream, exp, out); msg != "" {
-			t.Fatalf("%s\nstream(%d)=%q chunks=%v", msg, len(stream), c26Clip(stream), chunks)
+			t.Fatalf("%s\nstream(%d)=%q chunks=%v consumer read sizes=%v", msg, len(stream), c26Clip(stream), chunks, readSizes)
 		}
 
 		trailing := 0
@@ -786,7 +815,16 @@ func TestVF_C26_Stream(t *testing.T) {
 			if trailing > 4096 {
 				st.Class("nt:trailing>bufio")
 			}
-			if st.NonTrivial(exp.Class, string(stream[:exp.HeaderLen]), trailing, chunks) {
+			if trailing > 0 && len(chunks) == 0 {
+				st.Class("nt:header+trailing-in-one-read")
+				for _, rs := range readSizes {
+					if rs >= 4096 && trailing > 4096 {
+						st.Class("nt:large-consumer-read-while-bytes-buffered")
+						break
+					}
+				}
+			}
+			if st.NonTrivial(exp.Class, string(stream[:exp.HeaderLen]), trailing, chunks, readSizes) {
 				st.Sample(map[string]any{"class": exp.Class, "header_hex": fmt.Sprintf("%x", c26Clip(stream[:exp.HeaderLen])), "trailing": trailing, "chunks": chunks})
 			}
 		}
@@ -837,17 +875,18 @@ func c26FuzzOne(data []byte) string {
 	if len(data) == 0 {
 		return ""
 	}
-	chunk := int(data[0])
+	chunk := int(data[0] & 0x3f)
 	stream := data[1:]
 	var chunks []int
 	if chunk > 0 {
 		chunks = []int{chunk}
 	}
+	readSize := []int{1500, 4, 4096, 65536}[data[0]>>6]
 	exp := c26RefParse(stream)
 	if vfkit.Known(c26FindingFamily) && c26KnownExcluded(stream) {
 		return ""
 	}
-	out := c26Run(stream, chunks)
+	out := c26Run(stream, chunks, readSize)
 	return c26Judge(stream, exp, out)
 }
 
